@@ -238,6 +238,16 @@ impl<'tcx> Cx<'tcx> {
                         for st in &bb.statements {
                             if let StatementKind::Assign(b) = &st.kind {
                                 let (_, rv) = &**b;
+                                if let Rvalue::Aggregate(ak, _) = rv {
+                                    if let AggregateKind::Adt(d, vi, _, _, _) = &**ak {
+                                        let adt = tcx.adt_def(*d);
+                                        inner.push(format!(
+                                            "{{\"ty\":{},\"d\":{}}}",
+                                            js(&self.path(*d)),
+                                            js(&format!("{}::{}", self.path(*d), adt.variant(*vi).name))
+                                        ));
+                                    }
+                                }
                                 let ops: Vec<&Operand<'tcx>> = match rv {
                                     Rvalue::Use(o, ..) => vec![o],
                                     Rvalue::Cast(_, o, _) => vec![o],
